@@ -49,8 +49,8 @@ func main() {
 
 	quick := r.Quick()
 	units := []unit{
-		{"c04", pick(quick, "0.5", "0.12"), "quick", true},
-		{"c03", pick(quick, "0.25", "0.2"), "quick", false},
+		{"c04", pick(quick, "0.65", "1"), "quick", true}, // 13 scenarios: includes the fixed ones up to 12 (sync peer dropping while current)
+		{"c03", pick(quick, "0.25", "1"), "quick", false},
 		{"c09", pick(quick, "0.4", "0.2"), pick(quick, "quick", "thorough"), false},
 		{"c10", pick(quick, "0.5", "0.25"), pick(quick, "quick", "thorough"), false},
 		{"c11", pick(quick, "0.1", "0.05"), pick(quick, "quick", "thorough"), false},
